@@ -47,6 +47,9 @@ type Folder struct {
 	Steps    int
 	Budget   int
 	Over     bool
+
+	startBlock, startPred *ssa.BasicBlock
+	preset                map[ssa.Value]cval
 }
 
 func (f *Folder) Eval(fn *ssa.Function, args []cval) []Outcome {
@@ -69,6 +72,20 @@ func (e fenv) clone() fenv {
 	return n
 }
 
+// EvalFrom folds fn starting at block start (as if entered from pred) with a
+// preset environment for values defined earlier.
+func (f *Folder) EvalFrom(fn *ssa.Function, start, pred *ssa.BasicBlock, preset map[ssa.Value]cval) []Outcome {
+	if f.MaxDepth == 0 {
+		f.MaxDepth = 5
+	}
+	if f.Budget == 0 {
+		f.Budget = 200000
+	}
+	f.startBlock, f.startPred, f.preset = start, pred, preset
+	defer func() { f.startBlock, f.startPred, f.preset = nil, nil, nil }()
+	return f.eval(fn, nil, 0)
+}
+
 func (f *Folder) eval(fn *ssa.Function, args []cval, depth int) []Outcome {
 	if len(fn.Blocks) == 0 {
 		return []Outcome{{Returned: true}}
@@ -79,6 +96,13 @@ func (f *Folder) eval(fn *ssa.Function, args []cval, depth int) []Outcome {
 			env[p] = args[i]
 		}
 	}
+	first, firstPred := fn.Blocks[0], (*ssa.BasicBlock)(nil)
+	if depth == 0 && f.startBlock != nil {
+		first, firstPred = f.startBlock, f.startPred
+		for k, v := range f.preset {
+			env[k] = v
+		}
+	}
 	var outs []Outcome
 	type frame struct {
 		b    *ssa.BasicBlock
@@ -86,7 +110,7 @@ func (f *Folder) eval(fn *ssa.Function, args []cval, depth int) []Outcome {
 		env  fenv
 		mem  map[string]cval
 	}
-	work := []frame{{fn.Blocks[0], nil, env, map[string]cval{}}}
+	work := []frame{{first, firstPred, env, map[string]cval{}}}
 	visits := map[*ssa.BasicBlock]int{}
 	seenState := map[string]bool{}
 	for len(work) > 0 {
